@@ -811,4 +811,48 @@ theorem upgrade_branch_head_eq (m : LMap) (hsub : ∀ x ∈ m.heads, x ∈ m.ids
 
 example : matchRelative "lib@head" = none := by decide +kernel
 
+open C16 in
+/-- **`upgrade heads` on an empty version table runs every revision**: for every loaded history, the plan
+`upgrade heads` computes from the empty table contains exactly the revisions of the history (each once,
+every one after what it needs, by `C01.plan`) — no revision is skipped, whatever branches, merge points and
+dependencies there are. -/
+theorem upgrade_heads_from_empty_runs_all {h : Hist} {o : LoadOpts} {m : LMap} (hl : load h o = .ok m)
+    (hu : (h.map (·.id)).Nodup) (hd : ∀ r ∈ h, ∀ d ∈ r.down, d ∈ h.map (·.id))
+    (plan : List Id) (hp : upgradeRevs m [] "heads" = .ok plan) :
+    plan.Nodup ∧ ∀ x, x ∈ plan ↔ x ∈ m.ids := by
+  have L := loaded_of_load hl hu hd
+  have hrh := (C15.heads_bases hl hu hd).2.1
+  obtain ⟨targets, cur, ht, hc, U⟩ := C01.plan hl hu hd [] "heads" plan hp
+  have hm : matchRelative "heads" = none := by decide +kernel
+  have htg : targets = m.realHeads := by
+    unfold parseUpgradeTarget at ht
+    simp only [hm, symbolic_heads hl, bind, Except.bind] at ht
+    have key : ∀ (F : Option Id → Except Err Id), (∀ i, F (some i) = .ok i) →
+        ∀ l : List Id, (l.map some).mapM F = .ok l := by
+      intro F hF l
+      induction l with
+      | nil => rfl
+      | cons a r ih => simp only [List.map_cons, List.mapM_cons, hF a, ih, bind, Except.bind, pure, Except.pure]
+    rw [key _ (fun i => rfl)] at ht
+    exact (Except.ok.inj ht).symm
+  have hcur : cur = [] := by
+    unfold resolveRows getRevisionsMany at hc
+    simp [bind, Except.bind, pure, Except.pure] at hc
+    exact hc
+  subst htg; subst hcur
+  refine ⟨U.nodup, ?_⟩
+  intro x
+  rw [U.exact x]
+  constructor
+  · rintro ⟨⟨r, hr, hreach⟩, -⟩
+    have hri : r ∈ m.ids := ((hrh r).mp hr).1
+    clear hp ht hc U hr
+    induction hreach with
+    | refl _ => exact hri
+    | step hs _ ih => exact ih (L.refs_closed _ _ hs)
+  · intro hx
+    refine ⟨?_, by rintro ⟨r, hr, _⟩; simp at hr⟩
+    obtain ⟨hh, hmax, hreach⟩ := exists_max_above L m.ids x hx
+    exact ⟨hh, (hrh hh).mpr ⟨hmax.1, hmax.2⟩, hreach⟩
+
 end C05
